@@ -1,6 +1,7 @@
+import LentilVerif.Gen.ZernikeR
 /-! Integer kernel of `lentil/zernike.py`: Noll index → (n, m) and the radial polynomial coefficients with their exact tables
-(`radialAtOne`, `gramNum`, …). No imports: the finite tables of `Lemmas/ZernikeTables.lean` depend on this file only, so they are
-re-checked only when it changes. -/
+(`radialAtOne`, `gramNum`, …). It imports only the generated `Gen/ZernikeR.lean` (the coefficient formula of `R`): the finite tables of
+`Lemmas/ZernikeTables.lean` depend on these two files only, so they are re-checked only when the formula changes. -/
 namespace Lentil
 
 /-! ## Noll index -/
@@ -32,34 +33,46 @@ def nollInv (n : Nat) (m : Int) : Nat :=
   else if 0 < m then (if (tri n + m.natAbs) % 2 = 0 then tri n + m.natAbs else tri n + m.natAbs + 1)
   else (if (tri n + m.natAbs) % 2 = 1 then tri n + m.natAbs else tri n + m.natAbs + 1)
 
-/-- the literal list construction of `zernike_index`: `row_m = [1, 1]` (n odd) or `[0]`, then ⌊n/2⌋ times append
-`last + 2` twice -/
+/-- the literal list construction of `zernike_index`, from the REGENERATED pieces: seed `Gen.rowSeed n` (`[1, 1]` for odd n, `[0]` otherwise),
+then `Gen.rowLoops n` (= ⌊n/2⌋) passes each appending `Gen.rowStep last` (= `last + 2` twice) -/
 def rowMLoop : Nat → List Nat → List Nat
   | 0, l => l
-  | t + 1, l => let a := l.getLastD 0 + 2; rowMLoop t (l ++ [a] ++ [a])
+  | t + 1, l => rowMLoop t (l ++ Gen.rowStep (l.getLastD 0))
 
-def rowMList (n : Nat) : List Nat := rowMLoop (n / 2) (if n % 2 = 1 then [1, 1] else [0])
+def rowMList (n : Nat) : List Nat := rowMLoop (Gen.rowLoops n) (Gen.rowSeed n)
 
 /-- `zernike_index(j)` as written: row `n`, `r = j - (n+1)(n+2)/2 - 1` (a negative index from the end of `row_m`) -/
 def codeIndex (j : Nat) : Int × Nat :=
   let n := nollN j
   if n = 0 then (0, 0) else
-    let r : Int := (j : Int) - ((n + 1) * (n + 2) / 2 : Nat) - 1
+    let r : Int := Gen.idxR j n
     let l := rowMList n
     let idx : Int := if r < 0 then (l.length : Int) + r else r
-    let sign : Int := if j % 2 = 1 then -1 else 1
+    let sign : Int := Gen.idxSign j
     ((l.getD idx.toNat 0 : Int) * sign, n)
 
 /-! ## radial polynomials -/
 
-def fact : Nat → Nat
-  | 0 => 1
-  | n + 1 => (n + 1) * fact n
+/-- coefficient of ρ^(n-2k) in R_n^m: the exact value of the quotient `lentil.zernike.R` computes, numerator and denominator
+REGENERATED from the source (`Gen.radialNum`, `Gen.radialDen`) -/
+def radialCoeff (n m k : Nat) : Int := Gen.radialNum n m k / (Gen.radialDen n m k : Int)
 
-/-- coefficient of ρ^(n-2k) in R_n^m, as in `lentil.zernike.R` -/
-def radialCoeff (n m k : Nat) : Int :=
-  (if k % 2 = 0 then 1 else -1) *
-    ((fact (n - k) / (fact k * fact ((n + m) / 2 - k) * fact ((n - m) / 2 - k)) : Nat) : Int)
+/-- every coefficient of every valid (n, m) with n ≤ N is an exact integer: the denominator of the quotient the code forms divides its
+numerator (so the Int division of `radialCoeff` is the true value of the float quotient) -/
+def allCoeffExact (N : Nat) : Bool :=
+  (List.range (N + 1)).all fun n => (List.range (n + 1)).all fun m => (n - m) % 2 != 0 ||
+    (List.range ((n - m) / 2 + 1)).all fun k => Gen.radialNum n m k % (Gen.radialDen n m k : Int) == 0 && Gen.radialDen n m k != 0
+
+/-- Pascal's binomial coefficients (kernel-evaluable) -/
+def chooseN : Nat → Nat → Nat
+  | _, 0 => 1
+  | 0, _ + 1 => 0
+  | n + 1, k + 1 => chooseN n k + chooseN n (k + 1)
+/-- the code's factorial quotient is the textbook binomial form `(-1)^k C(n-k, k) C(n-2k, (n-m)/2 - k)` for all valid (n, m, k), n ≤ N -/
+def allBinomial (N : Nat) : Bool :=
+  (List.range (N + 1)).all fun n => (List.range (n + 1)).all fun m => (n - m) % 2 != 0 ||
+    (List.range ((n - m) / 2 + 1)).all fun k =>
+      radialCoeff n m k == (-1 : Int) ^ k * ((chooseN (n - k) k * chooseN (n - 2 * k) ((n - m) / 2 - k) : Nat) : Int)
 
 /-- R_n^m(1) -/
 def radialAtOne (n m : Nat) : Int := ((List.range ((n - m) / 2 + 1)).map (radialCoeff n m)).foldl (· + ·) 0
